@@ -636,7 +636,7 @@ func jsonTokens(b []byte) []jtok {
 	return out
 }
 
-var c17NumberSpellings = []string{"1e400", "-0", "1.0e-5", "0x1", "NaN", "Infinity", "01", "1.", ".5", "-", "1e", "123456789012345678901234567890123456789012345678901234567890", "1e-400", "9007199254740993", "-1e999999999", "1e999999", "1e-9999", "1E+2", "0.1e1"}
+var c17NumberSpellings = []string{"1e400", "-0", "1.0e-5", "0x1", "NaN", "Infinity", "01", "1.", ".5", "-", "1e", "123456789012345678901234567890123456789012345678901234567890", "1e-400", "9007199254740993", "-1e999999999", "1e999999", "1e-9999", "3.e119020815", ".5e-77777777", "1E+2", "0.1e1"}
 var c17Replacements = []string{"12", `"x"`, "true", "false", "null", "{}", "[]", `{"a":1}`, `[null]`, `"\ud800"`, `"\u0000"`, `"é"`, `{"value":1,"type":"string"}`, `{"type":"string","value":"x"}`, `{"type":["list","string"],"value":[1]}`, `{"type":"string"}`, `{"value":1}`, `{"type":1,"value":1}`}
 
 func c17TokenDamage(c *Ctx, data []byte) []byte {
@@ -1144,7 +1144,7 @@ func capExponents(b []byte) ([]byte, bool) {
 	changed := false
 	for i := 0; i < len(b); i++ {
 		out = append(out, b[i])
-		if (b[i] != 'e' && b[i] != 'E') || i == 0 || b[i-1] < '0' || b[i-1] > '9' && b[i-1] != '.' {
+		if (b[i] != 'e' && b[i] != 'E') || i == 0 || !((b[i-1] >= '0' && b[i-1] <= '9') || b[i-1] == '.') {
 			continue
 		}
 		j := i + 1
@@ -1179,7 +1179,7 @@ func capExponents(b []byte) ([]byte, bool) {
 // hasBigExponent reports a decimal exponent of five or more digits (four for negative ones).
 func hasBigExponent(b []byte) bool {
 	for i := 1; i < len(b); i++ {
-		if (b[i] != 'e' && b[i] != 'E') || b[i-1] < '0' || b[i-1] > '9' && b[i-1] != '.' {
+		if (b[i] != 'e' && b[i] != 'E') || !((b[i-1] >= '0' && b[i-1] <= '9') || b[i-1] == '.') {
 			continue
 		}
 		j := i + 1
